@@ -244,6 +244,42 @@ def check_system(cb, dec, label, do_convert=True):
                 ok = False
         if ok:
             rec('subs', 'discharged')
+        # (v') substitution of an amount function: first make one rate depend on the amount of its source (a
+        # saturable flow), then rename that amount; the result must be a closed system over the renamed amounts
+        srcs = [sname for (sname, _d) in dec.flows]
+        if srcs:
+            X = srcs[0]
+            ksyms = sorted({x for (sname, _d), rate in dec.flows.items() if sname == X for x in rate.free_symbols
+                            if x.name.startswith('K')}, key=str)
+            AX, AXR = amount_fn(X), amount_fn(X + 'R')
+            s1 = {ksyms[0]: ksyms[0] / (1 + AX)} if ksyms else {}
+            s2 = {AX: AXR}
+            csn = cs.subs({Expr(k): Expr(v) for k, v in s1.items()}) if s1 else cs
+            csr = csn.subs({Expr(AX): Expr(AXR)})
+            amts = [a._sympy_() for a in csr.amounts]
+            okA = True
+            lhs = [e._sympy_().lhs.args[0] for e in csr.eqs]
+            if lhs != amts or (AXR in amts) == (AX in amts):
+                rec('subs_amount', 'violated', what='amounts / left-hand sides after renaming an amount', amounts=str(amts), lhs=str(lhs))
+                okA = False
+            else:
+                for e in csr.eqs:
+                    fns = {f for f in e._sympy_().rhs.atoms(sympy.Function) if str(f.func).startswith('A_')}
+                    if not fns <= set(amts):
+                        rec('subs_amount', 'violated', what='right-hand side refers to a function that is not an amount of the system',
+                            eq=str(e), amounts=str(amts))
+                        okA = False
+                        break
+            if okA:
+                for e2, nm in zip(csr.eqs, csr.compartment_names):
+                    ref = declared_rhs(dec, nm).xreplace(s1).xreplace(s2)
+                    v, info = eq.check(e2._sympy_().rhs, ref, extra=pos + [AXR >= 0])
+                    if v == 'differ':
+                        rec('subs_amount', 'violated', compartment=nm, got=str(e2.rhs), reference=str(ref), witness=info)
+                        okA = False
+                        break
+            if okA:
+                rec('subs_amount', 'discharged')
         d = cs.to_dict()
         cs3 = CS.from_dict(json.loads(json.dumps(d)))
         try:
